@@ -3,7 +3,7 @@
 The theorem being proved (C10/YpRoundSpec.v, YpRound*.v) says: for every abstract grammar `ag`
 and layout `lay` with `wf_agram k ag` and `wf_layout lay ag`
 
-    run_case true fa k (print lay ag) = Done (TResult (ast_of fa lay ag) [] (warnings_of fa lay ag))
+    run_case true fa fp k (print lay ag) = Done (TResult (ast_of fa fp lay ag) [] (warnings_of fa fp lay ag))
 
 for each of the three dialects k (Original, Grmtools: every rule block carries `-> type`; Eco: %implicit_tokens) and
 every declaration kind (%start %token %left/%right/%nonassoc %epp %avoid_insert %expect %expect-rr %actiontype
@@ -32,7 +32,10 @@ from checks.c10_parser import strip_bad, badspans_are_action_spans
 # After the proposed action-span repair is applied to /repo set this to True (as in c10_parser.py):
 # the expected AST is then computed with fa = true and the mirror is run in its repaired variant.
 ACTION_SPAN_FIXED = False
-MODEL_FLAGS = " fc" + (" fa" if ACTION_SPAN_FIXED else "")
+# /repo 69c4b9b (production span ends with the last item also before an action): the expected AST is computed with
+# fp = true and the mirror run in that variant; False = the pinned code (span up to the action's brace)
+PROD_SPAN_FIXED = True
+MODEL_FLAGS = " fc" + (" fa" if ACTION_SPAN_FIXED else "") + (" fp" if PROD_SPAN_FIXED else "")
 
 QCH = {"b": "'", "s": "'", "d": '"'}          # YpPrint.qchar (QBare is mapped to the single quote)
 ALPHA_ = "abcdefghijklmnopqrstuvwxyzABCDEFGHIJKLMNOPQRSTUVWXYZ_"
@@ -453,8 +456,9 @@ def xs(s):
     return "x" + s.encode("utf-8").hex()
 
 
-def encode(fa, ag, lay):
-    w = ["1" if fa else "0", str(len(ag["decls"]))]
+def encode(fa, ag, lay, fp=None):
+    fp = PROD_SPAN_FIXED if fp is None else fp
+    w = [("1" if fa else "0") + ("1" if fp else "0"), str(len(ag["decls"]))]
     for x in ag["decls"]:
         k = x[0]
         if k == "S":
@@ -1067,6 +1071,24 @@ def corpus():
 # =====================================================================================
 def account(ctx, ag, lay, text):
     c = ctx.count
+    # the layout that separates the repaired production span from the pinned one: blanks / comments between the last item
+    # of a production (%empty, symbol, %prec TOKEN) and the brace of its action
+    for r, (_, prods, _) in enumerate(ag["rules"]):
+        for p, pr in enumerate(prods):
+            if pr["action"] is None:
+                continue
+            if pr["prec"] is not None:
+                g = lay.G(4, r, p, 2)
+            elif pr["syms"]:
+                g = lay.G(4, r, p, 0, len(pr["syms"]) - 1)
+            elif lay.F(4, r, p):
+                g = lay.G(4, r, p, 4)
+            else:
+                continue
+            if g != "":
+                c("production_with_layout_before_action_brace")
+                if "/" in g:
+                    c("production_with_comment_before_action_brace")
     kinds = {"S": "start", "T": "token", "P": "prec", "E": "epp", "A": "avoid_insert", "X": "expect", "Y": "expect_rr",
              "C": "actiontype", "M": "parse_param", "G": "parse_generics", "U": "expect_unused", "I": "implicit_tokens"}
     kname = {"O": "Original", "G": "Grmtools", "E": "Eco"}[ag["kind"]]
@@ -1282,6 +1304,20 @@ FINDING_PROBES = [
      "a comment after a value read to the end of the line is part of the value"),
     ("G", "%%\nA -> u64 /* why */ : ;", ["OK", "RULE x41 3 4 x753634202f2a20776879202a2f 0"],
      "a comment between a Grmtools action type and the colon is part of the type"),
+    # C10/YpRoundFindings.v: ps_fixed_example (the repaired production span), action_literal_brace_refuted, actiontype_layout_refuted
+    ("O", " %% S : 'a' 'b'   /* c */ { x } ; ", ["OK", "PROD - x78 27 28 8 15 T x61 9 10 T x62 13 14"],
+     "production span of  'a' 'b'   /* c */ { x }  ends after 'b' (with /repo 69c4b9b; before it: 8 26)"),
+    ("G", " %% S -> String: 'a' { \"{\".to_string() } | 'b' { \"}\".to_string() } ; ",
+     ["OK", "PROD - x227b222e746f5f737472696e672829207d207c20276227207b20227d222e746f5f737472696e672829 22 63 17 20 T x61 18 19", "TOK x61 18 19 -"],
+     "known finding C10-action-literal-brace: braces in string literals of two actions fuse them into ONE production"),
+    ("O", "%actiontype u32  \n%%\nS: 'a';", ["OK", "RULE x53 21 22 x7533322020 0"],
+     "known finding C10-actiontype-layout: trailing blanks are part of the %actiontype value"),
+    ("O", "%actiontype u32 // c\n%%\nS: 'a';", ["OK", "RULE x53 24 25 x753332202f2f2063 0"],
+     "known finding C10-actiontype-layout: a trailing comment is part of the %actiontype value"),
+    ("G", "%%\nS -> u32 /* c */ : 'a';", ["OK", "RULE x53 3 4 x753332202f2a2063202a2f 0"],
+     "known finding C10-actiontype-layout: a comment before the colon is part of a Grmtools action type"),
+    ("G", "%%\nS -> u32 // x: y\n : 'a';", ["ERRS 1", "E IllegalString 21 21"],
+     "known finding C10-actiontype-layout: a colon inside a comment after a Grmtools action type ends the type"),
 ]
 
 
@@ -1314,6 +1350,8 @@ def run_part(ctx, tag="C10round"):
                            "kind": k, "text": t, "impl": a[:1500], "mirror": m[:1500], "expected_sections": marks,
                            "replay_cmd": "echo '%s' | .work/target/release/c10yp" % pl}, no_input=True)
     ctx.oblige(nprobe == 0, "refutation witnesses replay on the implementation")
+    ctx.oblige(ctx.hist.get("production_with_comment_before_action_brace", 0) >= 20,
+               "productions with blanks/comments between the last item and the action's brace were generated")
     ctx.oblige(bad["print"] == 0, "Coq printer = Python printer")
     ctx.oblige(bad["impl"] == 0, "implementation builds ast_of on print")
     ctx.oblige(bad["thm"] == 0, "mirror builds ast_of on print (the theorem's statement, evaluated)")
@@ -1352,6 +1390,8 @@ def run_part(ctx, tag="C10round"):
         "code points of names, actions, values and layout are Unicode scalar values (str = list N admits others; they cannot reach a Rust &str)",
         "expected AST computed with fa = %s: /repo %s the action-span repair (ACTION_SPAN_FIXED in checks/c10_round.py)"
         % ("true" if fa else "false", "has" if fa else "does not have"),
+        "expected AST computed with fp = %s: /repo %s the production-span repair 69c4b9b (PROD_SPAN_FIXED in checks/c10_round.py)"
+        % ("true" if PROD_SPAN_FIXED else "false", "has" if PROD_SPAN_FIXED else "does not have"),
     ]
 
 
@@ -1381,7 +1421,7 @@ def run_batch(ctx, rng, n, fa, exe, mirror, rexe, bad, first=()):
     model = core.run_lines([mirror], [l + MODEL_FLAGS for l in plines])
     # the statement for the other action-span variant (the theorem quantifies over fa): pairs with an action
     oth = [i for i, (ag, _) in enumerate(pairs) if any(pr["action"] is not None for _, ps, _ in ag["rules"] for pr in ps)]
-    oflags = " fc" + ("" if fa else " fa")
+    oflags = " fc" + ("" if fa else " fa") + (" fp" if PROD_SPAN_FIXED else "")
     ocoq = core.run_lines([rexe], [encode(not fa, *pairs[i]) for i in oth])
     omodel = core.run_lines([mirror], [plines[i] + oflags for i in oth])
     for i, oc, om in zip(oth, ocoq, omodel):
@@ -1394,6 +1434,23 @@ def run_batch(ctx, rng, n, fa, exe, mirror, rexe, bad, first=()):
                            "differences_mirror_vs_expected": diff_sections(om, oc.split(" # ", 1)[-1]),
                            "replay_cmd": "echo '%s' | .work/ocaml/c10round/gvm_c10round ; echo '%s' | .work/ocaml/c10yp/gvm_c10yp"
                                          % (encode(not fa, *pairs[i]), plines[i] + oflags)}, no_input=True)
+    # ... and for the other production-span variant (the theorem quantifies over fp): a sample of those pairs
+    othp = oth[:500]
+    pflags = " fc" + (" fa" if fa else "") + ("" if PROD_SPAN_FIXED else " fp")
+    pcoq = core.run_lines([rexe], [encode(fa, pairs[i][0], pairs[i][1], not PROD_SPAN_FIXED) for i in othp])
+    pmodel = core.run_lines([mirror], [plines[i] + pflags for i in othp])
+    for i, oc, om in zip(othp, pcoq, pmodel):
+        ctx.count("statement_evaluated_for_other_fp")
+        if " # " in oc and oc.split(" # ", 1)[1] != expected[i]:
+            ctx.count("statement_for_other_fp_with_a_different_production_span")
+        if " # " not in oc or oc.split(" # ", 1)[0] != coq[i].split(" # ", 1)[0] or om != oc.split(" # ", 1)[1]:
+            bad["thm"] += 1
+            ctx.violation({"what": "ROUND-TRIP STATEMENT FALSE FOR THIS PAIR with fp = %s: the extracted mirror on (print lay ag) does not "
+                                   "return (ast_of fa fp lay ag) although wf_agram/wf_layout hold" % ("false" if PROD_SPAN_FIXED else "true"),
+                           "pair": describe(*pairs[i]), "text": texts[i], "mirror": om[:3000], "expected": oc[:3000],
+                           "differences_mirror_vs_expected": diff_sections(om, oc.split(" # ", 1)[-1]),
+                           "replay_cmd": "echo '%s' | .work/ocaml/c10round/gvm_c10round ; echo '%s' | .work/ocaml/c10yp/gvm_c10yp"
+                                         % (encode(fa, pairs[i][0], pairs[i][1], not PROD_SPAN_FIXED), plines[i] + pflags)}, no_input=True)
     for (ag, lay), case, text, exp, pline, a, m in zip(pairs, cases, texts, expected, plines, impl, model):
         nprods = sum(len(ps) for _, ps, _ in ag["rules"])
         ctx.case(case, len(ag["decls"]) >= 2 and nprods >= 2, {"text": text[:400]})
